@@ -86,6 +86,10 @@ func c10Wire(c *ctx) {
 			return
 		}
 	}
+	if err := waitTLSServing("warmup.invalid", mixA); err != nil { // not a tcp route's name: the https side answers
+		c.R.Inconcl("%v", err)
+		return
+	}
 	// hellos of growing size
 	alpn := func(n int) []string {
 		var out []string
